@@ -20,7 +20,9 @@ EXPLANATION = (
     "'result present' branch emits only constants/data (no compile_expr of the block body), so the block's side effects are not "
     "repeated at run time; (c) the capture table: the Rust integer/float type used to call the JIT'd function has exactly the "
     "width of the Cranelift return type, IntBytes re-serialises at the same width, and the value is re-materialised with the "
-    "block's own final type.")
+    "block's own final type; (d) the comptime expression and its body carry one type: infer_expr gives the expression the "
+    "body's inferred type and replace_weak_tys retypes the body with the expression's new type on every path (the JIT "
+    "evaluates the body at the body's type, the binary reads the bytes back at the expression's type).")
 NOT_DECIDED = [
     "that the JIT and the ahead-of-time pipeline compute equal values for the same code (same code generator; that is C01/C08)",
     "comptime blocks inside generic (polymorphic) function bodies (find_comptimes ends in todo!(): reported under C06)",
@@ -216,9 +218,67 @@ def r04c(ctx, run):
                       "endianness arms of IntBytes::into_bytes are mixed up")
 
 
+def r04d(ctx, run):
+    """the comptime expression and its body carry the same type: the JIT compiles the body at the body's recorded type and
+    the final binary materialises the captured bytes at the comptime expression's type"""
+    import c09
+    f = ctx.syn.fn("GlobalInferenceCtx::replace_weak_tys", "hir_ty/src/globals.rs")
+    m, props = c09.guarded_propagations(f)
+    mine = [(c, g) for h, c, g in props if h == "Comptime"]
+    if not mine:
+        run.finding(f.qual, "comptime-retype", f.file, m["ln"], "when a comptime expression's weak type is replaced its body is not retyped: the block is evaluated at "
+                    "its default 32-bit type and the bytes are materialised at the new type")
+        return
+    for i, (call, guards) in enumerate(mine):
+        a0, a1 = canon(call["a"][0]), canon(call["a"][1])
+        # the first argument must be the comptime's body, the second the very type recorded for the comptime expression
+        arm = [b for h, p, g, b, arm in synq.match_table(m) if h and synq.last_seg(h) == "Comptime"][0]
+        binds = {canon(x["p"]): canon(x["init"]) for x in walk(arm) if x.get("k") == "local" and x.get("init") is not None}
+        body_ok = a0.endswith(".body") or binds.get(a0, "").endswith(".body")
+        run.check(body_ok and a1 == "new_ty" and not guards, f.site(call["ln"]), "comptime body retyped with the expression's new type on every path",
+                  f.qual, "comptime-retype#%d" % i, f.file, call["ln"],
+                  "Expr::Comptime must retype its body (`%s`) with the type recorded for the comptime expression (`%s`), unconditionally%s: otherwise the JIT "
+                  "evaluates the block at another type than the one its bytes are read back as"
+                  % (a0, a1, "; found guard(s) %s" % ["%s@%s" % (g[1], g[2]) for g in guards] if guards else ""))
+    # inference side: the type of `comptime { body }` is the type recorded for the body (or Unknown after a diagnostic)
+    def tails(e):
+        k = e.get("k")
+        if k == "block":
+            if not e["s"]:
+                return []
+            last = e["s"][-1]
+            if last["k"] == "expr" and not last.get("semi"):
+                return tails(last["e"])
+            return []
+        if k == "if":
+            return tails(e["t"]) + (tails(e["e"]) if e.get("e") is not None else [])
+        if k == "match":
+            return [t for a in e["arms"] for t in tails(a["b"])]
+        return [e]
+    found = 0
+    for g in ctx.syn.fns_in("hir_ty/src/globals.rs"):
+        if g.body is None:
+            continue
+        for x in synq.matches_on(g.body):
+            for h, p, gg, b, arm in synq.match_table(x):
+                if not (h and synq.last_seg(h) == "Comptime" and "ComptimePointer" in canon(b)):
+                    continue
+                found += 1
+                lets = {canon(y["p"]): canon(y["init"]) for y in walk(b) if y.get("k") == "local" and y.get("init") is not None}
+                tyvars = [k for k, v in lets.items() if v.startswith("self.tys[") and v.endswith("[body]")]
+                leaves = [canon(t) for t in tails(b)]
+                bad = [l for l in leaves if l not in tyvars and l != "Ty::Unknown.into()"]
+                run.check(bool(tyvars) and leaves and not bad, g.site(arm["ln"]), "type of a comptime expression = recorded type of its body (leaves %s)" % leaves,
+                          g.qual, "comptime-type", g.file, arm["ln"],
+                          "the Expr::Comptime arm of inference must yield the type recorded for the block body (or Unknown after a diagnostic); yields %s" % bad)
+    if not found:
+        raise LookupError("Expr::Comptime arm of inference (the one reporting ComptimePointer)")
+
+
 def rules(ctx):
     return [
         Rule("R04.a", "address-bearing comptime results are rejected or relocated (top level and through aggregate members)", 16, r04a),
         Rule("R04.b", "all comptime blocks are evaluated before code generation, which receives those results and never recompiles an evaluated block", 9, r04b),
+        Rule("R04.d", "a comptime expression and its body are recorded at the same type (inference and weak-type replacement)", 2, r04d),
         Rule("R04.c", "capture table: read-back type width = Cranelift type width; serialisation at the recorded width", 20, r04c),
     ]
